@@ -179,6 +179,26 @@ def calcCompE (s : SimState) (it : Item) (cur : Name → Val) : Comp → Except 
   | .shared a => .ok (cur a, .shared a)
   | .actionPenalty ap dn => .ok (calcActionPenalty it ap dn, .actionPenalty ap dn)
 
+/-- the leaf of the state dictionary a component names (`location_in_state`), if it reads the state at all -/
+def Comp.loc : Comp → Option (List String)
+  | .fileIntegrity n fo fi => some (fileLoc n fo fi)
+  | .web404 n sv _ _ => some (web404Loc n sv)
+  | .webpage n _ _ => some (webpageLoc n)
+  | _ => none
+
+/-- which fields of the agent's own latest history item a component reads -/
+structure Reads where
+  action : Bool := false
+  request : Bool := false
+  status : Bool := false
+deriving DecidableEq, Repr
+
+def Comp.reads : Comp → Reads
+  | .webpage _ _ _ => { request := true, status := true }
+  | .greenDb _ _ _ => { request := true, status := true }
+  | .actionPenalty _ _ => { action := true }
+  | _ => {}
+
 /-! ### Total versions (the value is only meaningful when the `E` version does not raise) -/
 
 def calcFile (s : SimState) (node folder file : Name) : Val :=
